@@ -105,6 +105,7 @@ theorem pair_step (c : Cfg) (s : State) (a : Act) (s' : State) (h : PairInv s) (
   | setStop hc => exact ⟨h1, by simp, h3⟩
   | drainCancel hc hq hp => exact ⟨fun x t hm => h1 x t (by simp [hq, hm]), h2, h3⟩
   | drainCancelRun hc hq hp => exact ⟨fun x t hm => h1 x t (by simp [hq, hm]), h2, h3⟩
+  | drainDetach hc hq hp => exact ⟨fun x t hm => h1 x t (by simp [hq, hm]), h2, h3⟩
   | drainSkip hc hq hp => exact ⟨fun x t hm => h1 x t (by simp [hq, hm]), h2, h3⟩
   | drainEnd hc hq => exact ⟨fun x t hm => h1 x t (by simp [hq, hm]), by simp, h3⟩
   | drainExc hc hq => exact ⟨fun x t hm => h1 x t (by simp [hq, hm]), by simp, h3⟩
@@ -182,6 +183,7 @@ theorem order_step (c : Cfg) (s : State) (a : Act) (s' : State) (hph : PhaseInv 
   | setStop hc => intro hact; simp [CPc.active] at hact
   | drainCancel hc hq hp => intro hact; simp [hc, CPc.active] at hact
   | drainCancelRun hc hq hp => intro hact; simp [hc, CPc.active] at hact
+  | drainDetach hc hq hp => intro hact; simp [hc, CPc.active] at hact
   | drainSkip hc hq hp => intro hact; simp [hc, CPc.active] at hact
   | drainEnd hc hq => intro hact; simp [CPc.active] at hact
   | drainExc hc hq => intro hact; simp [CPc.active] at hact
